@@ -5,7 +5,8 @@ import CJ.Gen.LockPrograms
 
 Property theorems only.  The model (`CJ/Model/RW.lean`) is Go's `sync.RWMutex` with writer preference
 around the swappable selector; a *state* is any number of threads, each with a remaining lock program.
-The programs of the real code are the tables `Gen.bdReqPaths` / `Gen.reloadPaths`, regenerated from
+The programs of the real code are the tables `Gen.selectorPaths` / `Gen.zmqPaths` (every path through every
+exported entry point of the package that touches the lock), regenerated from
 `pkg/regserver/regprocessor/*.go` on every run; the last section states the property about them.
 -/
 namespace CJ.Props.C13
@@ -92,42 +93,77 @@ theorem old_or_new_in_full (progs : List (List Op)) (hflat : ∀ p ∈ progs, fl
   obtain ⟨v, hs⟩ := view_seen hv
   exact ⟨t, v, ht, hs⟩
 
-/-! ### the real code: tables regenerated from the source on every run -/
+/-! ### the real code: tables regenerated from the source on every run
 
-/-- every path through `processBdReq` (v4 only, v6 only, dual stack, error exits; `defer` expanded) is flat -/
-theorem bdreq_programs_flat : ∀ p ∈ Gen.bdReqPrograms, flat p = true := by decide
+`Gen.selectorPaths` / `Gen.zmqPaths` hold every path through every exported entry point of
+`pkg/regserver/regprocessor` that operates on `selectorMutex` / `zmqMutex` (callees inlined, `defer`
+expanded); code outside the package cannot name the unexported mutexes, so these are all the programs a
+goroutine can run against the two locks.  `Gen.coverage` is the extractor's own account: how often each
+name occurs in the sources and how many of the occurrences the paths visit. -/
 
-/-- every path through `ReloadSubnets` is flat -/
-theorem reload_programs_flat : ∀ p ∈ Gen.reloadPrograms, flat p = true := by decide
+/-- every path through every entry point that touches `selectorMutex` (`RegisterBidirectional` with
+`processBdReq` inlined: v4 only, v6 only, dual stack, error exits; `ReloadSubnets`; whatever else the
+package exports) is flat -/
+theorem selector_programs_flat : ∀ p ∈ Gen.selectorPrograms, flat p = true := by decide
 
-/-- every path through `processBdReq` reads the selector in one section, only under the read lock -/
-theorem bdreq_programs_one_section :
-    ∀ p ∈ Gen.bdReqPrograms, readerProg p = true ∧ oneSection p = true := by decide
+/-- every path that stays on the read side reads the selector in one section, before its first `Select` -/
+theorem reader_programs_one_section :
+    ∀ p ∈ Gen.selectorPrograms, readerProg p = true → oneSection p = true := by decide
 
-/-- **C13 for the extracted programs.** Any number of requests, each following any path through
-`processBdReq`, next to any number of reloads: every reachable state is finished or can step, every run can
-be completed, no run is longer than the initial measure, and every request has used one selector version
-for all its selections. -/
-theorem registrar_keeps_answering (reqs rels : List (List Op))
-    (hreq : ∀ p ∈ reqs, p ∈ Gen.bdReqPrograms) (hrel : ∀ p ∈ rels, p ∈ Gen.reloadPrograms)
-    (sched : List Nat) (s : St) (h : exec (init (reqs ++ rels)) sched = some s) :
+/-- every path through every entry point that touches `zmqMutex` (`RegisterUnidirectional`,
+`RegisterBidirectional` via `sendToZMQ`) is a sequence of `Lock; Unlock` pairs: every `Lock` is followed
+by its `Unlock` before the entry point returns, on the error exits too -/
+theorem zmq_programs_balanced : ∀ p ∈ Gen.zmqPrograms, balanced p = true := by decide
+
+theorem zmq_programs_flat : ∀ p ∈ Gen.zmqPrograms, flat p = true :=
+  fun p hp => balanced_flat p (zmq_programs_balanced p hp)
+
+/-- the extractor's coverage obligation: each occurrence of `selectorMutex`, `ipSelector`, `zmqMutex` in
+the non-test sources is visited by a path of the tables or is an access to an object that the same
+function has just constructed — and the three names do occur -/
+theorem extractor_covers :
+    (∀ c ∈ Gen.coverage, c.2.1 = c.2.2.1 + c.2.2.2 ∧ 0 < c.2.2.1) ∧
+    ∀ n ∈ ["selectorMutex", "ipSelector", "zmqMutex"], Gen.coverage.any (fun c => c.1 == n) = true := by decide
+
+/-- the tables contain the entry points the property is about, with a path that does something -/
+theorem tables_cover_entry_points :
+    (∀ r ∈ ["RegProcessor.RegisterBidirectional", "RegProcessor.ReloadSubnets"],
+      Gen.selectorPaths.any (fun p => p.root == r && !p.ops.isEmpty) = true) ∧
+    (∀ r ∈ ["RegProcessor.RegisterBidirectional", "RegProcessor.RegisterUnidirectional"],
+      Gen.zmqPaths.any (fun p => p.root == r && !p.ops.isEmpty) = true) ∧
+    Gen.selectorPrograms.any (fun p => p.contains .swapSel) = true ∧
+    Gen.selectorPrograms.any (fun p => (p.filter (· == .select)).length = 2) = true := by decide
+
+/-- **C13 for the extracted programs.** Any number of goroutines, each following any path through any
+entry point that touches the selector lock (requests of every kind, reloads): every reachable state is
+finished or can step, every run can be completed, no run is longer than the initial measure, and every
+thread that stays on the read side (every request) has used one selector version for all its selections. -/
+theorem registrar_keeps_answering (progs : List (List Op))
+    (hp : ∀ p ∈ progs, p ∈ Gen.selectorPrograms)
+    (sched : List Nat) (s : St) (h : exec (init progs) sched = some s) :
     (allDone s = true ∨ ∃ i s', step s i = some s') ∧
     (∃ rest s', exec s rest = some s' ∧ allDone s' = true) ∧
-    sched.length + measure s ≤ measure (init (reqs ++ rels)) ∧
-    ∀ j, j < reqs.length → ∃ t v, s.ths[j]? = some t ∧ ∀ x ∈ t.seen, x = some v := by
-  have hflat : ∀ p ∈ reqs ++ rels, flat p = true := by
-    intro p hp
-    rcases List.mem_append.mp hp with hp | hp
-    · exact bdreq_programs_flat p (hreq p hp)
-    · exact reload_programs_flat p (hrel p hp)
+    sched.length + measure s ≤ measure (init progs) ∧
+    ∀ (j : Nat) (p : List Op), progs[j]? = some p → readerProg p = true →
+      ∃ t v, s.ths[j]? = some t ∧ ∀ x ∈ t.seen, x = some v := by
+  have hflat : ∀ p ∈ progs, flat p = true := fun p hm => selector_programs_flat p (hp p hm)
   obtain ⟨hprog, hcomp⟩ := never_blocked _ hflat sched s h
   refine ⟨hprog, hcomp, measure_exec h, ?_⟩
-  intro j hjlt
-  have hj : (reqs ++ rels)[j]? = some reqs[j] := by
-    rw [List.getElem?_append_left hjlt, List.getElem?_eq_getElem hjlt]
-  have hmem := hreq reqs[j] (List.getElem_mem hjlt)
-  obtain ⟨hr, h1⟩ := bdreq_programs_one_section _ hmem
-  exact old_or_new_in_full _ hflat j _ hj hr h1 sched s h
+  intro j p hj hr
+  have hmem := hp p (List.mem_of_getElem? hj)
+  exact old_or_new_in_full _ hflat j p hj hr (reader_programs_one_section p hmem hr) sched s h
+
+/-- the same for the publishing lock: any number of goroutines, each following any path through any entry
+point that touches `zmqMutex` — nobody is ever left waiting for it, every run can be completed -/
+theorem zmq_keeps_sending (progs : List (List Op))
+    (hp : ∀ p ∈ progs, p ∈ Gen.zmqPrograms)
+    (sched : List Nat) (s : St) (h : exec (init progs) sched = some s) :
+    (allDone s = true ∨ ∃ i s', step s i = some s') ∧
+    (∃ rest s', exec s rest = some s' ∧ allDone s' = true) ∧
+    sched.length + measure s ≤ measure (init progs) := by
+  have hflat : ∀ p ∈ progs, flat p = true := fun p hm => zmq_programs_flat p (hp p hm)
+  obtain ⟨hprog, hcomp⟩ := never_blocked _ hflat sched s h
+  exact ⟨hprog, hcomp, measure_exec h⟩
 
 /-! ### the statements are not vacuous, and flatness is what matters -/
 
@@ -140,6 +176,31 @@ example : flat nestedDual = false := by decide
 theorem nested_deadlocks : ∃ sched s, exec (init [nestedDual, [.lock, .swapSel, .unlock]]) sched = some s ∧
     allDone s = false ∧ ∀ i, step s i = none := by
   refine ⟨[0, 0, 0, 1], _, rfl, by decide, ?_⟩
+  intro i
+  match i with
+  | 0 => decide
+  | 1 => decide
+  | n + 2 => rfl
+
+/-- the shape a read lock taken by the *caller* of `processBdReq` gives (an outer section around the inner
+one): not flat, and it deadlocks with one reload that arrives between the two acquisitions -/
+def nestedOuter : List Op := [.rlock, .rlock, .readSel, .runlock, .select, .runlock]
+
+example : flat nestedOuter = false := by decide
+
+theorem outer_nested_deadlocks : ∃ sched s, exec (init [nestedOuter, [.lock, .swapSel, .unlock]]) sched = some s ∧
+    allDone s = false ∧ ∀ i, step s i = none := by
+  refine ⟨[0, 1], _, rfl, by decide, ?_⟩
+  intro i
+  match i with
+  | 0 => decide
+  | 1 => decide
+  | n + 2 => rfl
+
+/-- a path that returns between `Lock` and `Unlock` is not balanced, and the next sender waits for ever -/
+theorem leaked_lock_blocks : balanced [Op.lock] = false ∧
+    ∃ sched s, exec (init [[Op.lock], [.lock, .unlock]]) sched = some s ∧ allDone s = false ∧ ∀ i, step s i = none := by
+  refine ⟨by decide, [0, 0], _, rfl, by decide, ?_⟩
   intro i
   match i with
   | 0 => decide
